@@ -280,6 +280,12 @@ func genC09Hist(t *rapid.T) c09HistCase {
 			if rapid.IntRange(0, 5).Draw(t, "bank") == 5 {
 				p := genBankPlan(t)
 				p.CapOver = rapid.Int64Range(-5, 100).Draw(t, "bankcap")
+				if rapid.Bool().Draw(t, "bankdyn") {
+					// Cosmos tx with the dynamic-fee extension: effective price = min(tip + base fee, fee / gas)
+					p.Type = 2
+					p.Tip = rapid.SampledFrom([]uint64{0, 0, 1, 5, 1000, 2000000000}).Draw(t, "banktip")
+					p.CapOver = rapid.SampledFrom([]int64{0, 1, 100, 3000000000}).Draw(t, "bankcapdyn")
+				}
 				bp.Txs = append(bp.Txs, p)
 			} else {
 				p := genEthPlan(t, w, cfg, true)
@@ -367,6 +373,12 @@ func runC09Hist(cs c09HistCase) *Outcome {
 				price = new(big.Int).Add(floorAtBuild(br, tr), big.NewInt(tr.Built.Plan.CapOver))
 				if price.Sign() < 0 {
 					price = new(big.Int)
+				}
+				if tr.Built.Plan.Type == 2 {
+					if eff := new(big.Int).Add(new(big.Int).SetUint64(tr.Built.Plan.Tip), br.BaseFee); eff.Cmp(price) < 0 {
+						price = eff
+					}
+					o.label("hist:cosmos-dynamic-fee-admitted")
 				}
 			default:
 				continue
